@@ -272,7 +272,65 @@ pub enum DumpOutcome {
     Panic(String, String),
 }
 
+thread_local! {
+    static REFUSED_REGSETS: std::cell::Cell<u8> = const { std::cell::Cell::new(0) };
+}
+
+/// Runs `f` with every dump taken by this thread executed on a thread for which the kernel refuses
+/// PTRACE_GETREGSET for the general-purpose set (bit 0) and/or the floating-point set (bit 1), as an
+/// old kernel, a ptrace emulation or a sandbox policy on the dumping process would: the writer then has
+/// to use its second interface (PTRACE_GETREGS / PTRACE_GETFPREGS) for that set.
+pub fn with_refused_regsets<R>(mask: u8, f: impl FnOnce() -> R) -> R {
+    let old = REFUSED_REGSETS.with(|m| m.replace(mask & 3));
+    let r = f();
+    REFUSED_REGSETS.with(|m| m.set(old));
+    r
+}
+
+/// seccomp filter for the calling thread: ptrace(PTRACE_GETREGSET, _, NT_PRSTATUS / NT_PRFPREG, _) -> EIO
+fn install_regset_filter(mask: u8) -> bool {
+    const ALLOW: u32 = 0x7fff_0000;
+    const EIO: u32 = 0x0005_0000 | 5;
+    let ins = |code: u16, jt: u8, jf: u8, k: u32| libc::sock_filter { code, jt, jf, k };
+    let prog = [
+        ins(0x20, 0, 0, 0),                   // A = nr
+        ins(0x15, 0, 5, libc::SYS_ptrace as u32),
+        ins(0x20, 0, 0, 16),                  // A = low half of the request
+        ins(0x15, 0, 3, 0x4204),              // PTRACE_GETREGSET
+        ins(0x20, 0, 0, 32),                  // A = low half of the note type
+        ins(0x15, 2, 0, 1),                   // NT_PRSTATUS
+        ins(0x15, 2, 0, 2),                   // NT_PRFPREG
+        ins(0x06, 0, 0, ALLOW),
+        ins(0x06, 0, 0, if mask & 1 != 0 { EIO } else { ALLOW }),
+        ins(0x06, 0, 0, if mask & 2 != 0 { EIO } else { ALLOW }),
+    ];
+    let fprog = libc::sock_fprog { len: prog.len() as u16, filter: prog.as_ptr() as *mut _ };
+    unsafe { libc::prctl(libc::PR_SET_NO_NEW_PRIVS, 1, 0, 0, 0) == 0 && libc::prctl(libc::PR_SET_SECCOMP, 2 /* SECCOMP_MODE_FILTER */, &fprog as *const _) == 0 }
+}
+
 pub fn run_dump(w: &mut MinidumpWriter, dest: &mut Dest) -> DumpOutcome {
+    let mask = REFUSED_REGSETS.with(|m| m.get());
+    if mask != 0 {
+        struct P<T>(*mut T);
+        unsafe impl<T> Send for P<T> {}
+        let (pw, pd) = (P(w as *mut MinidumpWriter), P(dest as *mut Dest));
+        return std::thread::scope(|s| {
+            s.spawn(move || {
+                let (pw, pd) = (pw, pd);
+                if !install_regset_filter(mask) {
+                    return DumpOutcome::Panic("harness:seccomp".into(), "the seccomp filter could not be installed".into());
+                }
+                // the filter dies with this thread
+                unsafe { run_dump_here(&mut *pw.0, &mut *pd.0) }
+            })
+            .join()
+            .unwrap_or_else(|_| DumpOutcome::Panic("harness:dump-thread".into(), "the dump thread died".into()))
+        });
+    }
+    run_dump_here(w, dest)
+}
+
+fn run_dump_here(w: &mut MinidumpWriter, dest: &mut Dest) -> DumpOutcome {
     match crate::fw::catch(|| w.dump(dest)) {
         Ok(Ok(v)) => DumpOutcome::Ok(v),
         Ok(Err(e)) => DumpOutcome::Err(format!("{e:?}")),
@@ -324,7 +382,7 @@ pub fn with_hook<R>(cb: Box<dyn Fn(minidump_writer::verif_hooks::Point) + Send +
 /// task directory is gone.  Callable from a hook (no Target borrow needed).
 pub fn cue_and_wait(pid: i32, tid: i32, wfd: i32) -> bool {
     use std::io::Write;
-    if let Ok(mut f) = std::fs::OpenOptions::new().write(true).open(format!("/proc/{pid}/fd/{wfd}")) {
+    if let Ok(mut f) = std::fs::OpenOptions::new().write(true).open(format!("/proc/{pid}/task/{tid}/fd/{wfd}")) {
         let _ = f.write_all(&[1]);
     }
     let deadline = std::time::Instant::now() + std::time::Duration::from_millis(1000);
